@@ -65,6 +65,21 @@ def cov_c19(st, tier):
     }
 
 
+def cov_c09(st, tier):
+    return {
+        "states": st["round_trips"], "transitions": 2 * st["round_trips"], "traces_validated_against_impl": st["round_trips"],
+        "evaluations": st["round_trips"], "distinct_nontrivial": st["distinct_outcomes"],
+        "rule": "state = one (query type, downstream codec, query-name length, payload length, payload content) case; transition = one real write_dns() call in the server image "
+                "and one real read_dns_withq() call in the client image on the captured datagram. distinct = distinct (cell, content, result class, truncation length) outcomes; "
+                "non-trivial = all (every case crosses both real code paths)",
+        "exact": st["exact"], "proper_prefix": st["prefix"], "nothing": st["nothing"], "answers_also_strictly_parsed": st["answers_wellformed"],
+        "bounds": {"types": "NULL PRIVATE TXT SRV MX CNAME A", "codecs": "T S U V R", "name_lengths": "10 and 253 chars",
+                   "payload_lengths": "2..4096 every length" if tier == "thorough" else "2..300 every length, every 16th above plus 1020..1030, 2040..2050, 4090..4096",
+                   "contents": "ff, 00, probe pattern, counter, xorshift" if tier == "thorough" else "ff, 00, probe pattern",
+                   "client_buffer": "64 KB (tunnel path) for all; 4096 (handshake path) for lengths <= 2047"},
+    }
+
+
 PROPS = {
     "C07": {
         "harness": "C07.c", "flavor": "asan", "images": (("s", "server"),), "engine": "E-C enumerators",
@@ -100,6 +115,15 @@ PROPS = {
         "level_text": "Full product of a password family (lengths 0..40, four fills, every position set to 01/7f/80/ff) and a challenge family (boundary, all single-bit, single-zero, byte-lane values) through the real login_calculate() against an independent RFC 1321 MD5 over the documented formula; dependence on each of the first 32 bytes and each challenge bit; raw-mode +1/-1 observed on the wire from the real server loop and the real client handshake for wrap-around challenges.",
         "level_note": "Trusted: the reference MD5 (self-tested on an RFC 1321 vector). 2^32 challenges are covered by boundary/bit-lane values, not one by one.",
         "technique": "exhaustive enumeration of an input product through the real function vs independent reference; protocol exchange replayed against the real loops",
+        "assumptions": COMMON_ASSUME,
+    },
+    "C09": {
+        "harness": "C09.c", "flavor": "asan", "engine": "E-C enumerators",
+        "tiers": {"quick": {"budget_s": 120}, "thorough": {"budget_s": 900}},
+        "coverage": cov_c09,
+        "level_text": "For every cell of {7 record types} x {5 downstream codecs} x {short, maximal query name}, every payload length in the tier's range and 3-5 contents, the server image's real write_dns() builds the answer and the client image's real read_dns_withq() decodes it; the result must be the payload, a proper prefix or nothing, and exactness must be monotone in the length. Complete enumeration of the stated grid.",
+        "level_note": "Trusted: the harness comparison only (no model). Contents are five families, not all byte strings; the 4096-byte handshake buffer is paired only with the <= 2047-byte payloads the server can send during the handshake.",
+        "technique": "exhaustive enumeration of a finite grid through the two real code paths (cross-image round trip)",
         "assumptions": COMMON_ASSUME,
     },
 }
